@@ -975,16 +975,21 @@ fn found_equiv(a: &Found, b: &Found, strip: bool) -> bool {
     let at = |x: &Attrs, y: &Attrs| if strip { attrs_equiv(&strip_attrs(x), &strip_attrs(y)) } else { attrs_equiv(x, y) };
     match (a.logs.first(), b.logs.first(), a.spans.first(), b.spans.first(), a.metrics.first(), b.metrics.first()) {
         (Some(x), Some(y), ..) => {
-            let mut y2 = (*y).clone();
-            y2.attrs = x.attrs.clone();
-            y2.body = x.body.clone();
-            **x == y2 && at(&x.attrs, &y.attrs) && obs_equiv(&x.body, &y.body)
+            // everything but the values that may hold NaN (never equal to itself) field by field
+            let (mut x2, mut y2) = ((*x).clone(), (*y).clone());
+            for r in [&mut x2, &mut y2] {
+                r.attrs.clear();
+                r.body = AnyObs::Empty;
+            }
+            x2 == y2 && at(&x.attrs, &y.attrs) && obs_equiv(&x.body, &y.body)
         }
         (_, _, Some(x), Some(y), ..) => {
-            let mut y2 = (*y).clone();
-            y2.attrs = x.attrs.clone();
-            y2.events = x.events.clone();
-            **x == y2 && at(&x.attrs, &y.attrs) && x.events.len() == y.events.len() && x.events.iter().zip(&y.events).all(|(p, q)| p.name == q.name && p.time == q.time && at(&p.attrs, &q.attrs))
+            let (mut x2, mut y2) = ((*x).clone(), (*y).clone());
+            for r in [&mut x2, &mut y2] {
+                r.attrs.clear();
+                r.events.clear();
+            }
+            x2 == y2 && at(&x.attrs, &y.attrs) && x.events.len() == y.events.len() && x.events.iter().zip(&y.events).all(|(p, q)| p.name == q.name && p.time == q.time && at(&p.attrs, &q.attrs))
         }
         (_, _, _, _, Some(x), Some(y)) => {
             x.scope == y.scope
